@@ -329,6 +329,60 @@ func (sp singlePreemption) pick(c []*schedTask, step int) *schedTask {
 	return a
 }
 
+// doublePreemption runs task A until it is parked at the N-th occurrence of
+// point PA, then task B until it is parked at point PB, then A to completion,
+// then B, then everybody else.
+type doublePreemption struct {
+	a, b   int
+	pa, pb string
+	na, nb int
+	order  []int
+	phase  *int // 0: A to PA, 1: B to PB, 2: A done, 3: B done, 4: rest
+}
+
+func (dp doublePreemption) pick(c []*schedTask, step int) *schedTask {
+	find := func(id int) *schedTask {
+		for _, t := range c {
+			if t.id == id {
+				return t
+			}
+		}
+		return nil
+	}
+	a, b := find(dp.a), find(dp.b)
+	for {
+		switch *dp.phase {
+		case 0:
+			if a != nil && !(a.point == dp.pa && a.hits[dp.pa] >= dp.na) {
+				return a
+			}
+			*dp.phase = 1
+		case 1:
+			if b != nil && !(b.point == dp.pb && b.hits[dp.pb] >= dp.nb) {
+				return b
+			}
+			*dp.phase = 2
+		case 2:
+			if a != nil {
+				return a
+			}
+			*dp.phase = 3
+		case 3:
+			if b != nil {
+				return b
+			}
+			*dp.phase = 4
+		default:
+			for _, id := range dp.order {
+				if t := find(id); t != nil {
+					return t
+				}
+			}
+			return c[0]
+		}
+	}
+}
+
 // pct: priorities with a few priority change points.
 type pct struct {
 	prio     []int
